@@ -140,7 +140,7 @@ def case_from_key(k):
 
 def enumerate_cases(tier):
     d_main = 2 if tier == "quick" else 3
-    d_ctx = 1 if tier == "quick" else 2
+    d_ctx = 2 if tier == "quick" else 3
     out = []
     for ctx in CTX_ORDER:
         bases = CONTEXTS[ctx]["bases"]
@@ -258,8 +258,22 @@ def extract_printed(out, byname):
             continue
         m = DECL_NAME.search(s)
         if m and m.group(0) in byname and not s.startswith("template"):
-            res.setdefault(m.group(0), ([n for _, n in stack], s))
-    return res
+            res.setdefault(m.group(0), []).append(([n for _, n in stack], s))
+    out = {}
+    for name, lst in res.items():
+        # a reopened namespace is printed once per reopening: identical repeats are one
+        uniq = []
+        for x in lst:
+            if x not in uniq:
+                uniq.append(x)
+        if name[0] == "t":
+            tds = [x for x in uniq if x[1].startswith("typedef ") or x[1].startswith("using ")]
+            rest = [x for x in uniq if x not in tds]
+            if tds:
+                out[name] = tds[0] + (len(rest) + len(tds) - 1,)
+                continue
+        out[name] = uniq[0] + (len(uniq) - 1,)
+    return out
 
 
 CHK_PRELUDE = """\
@@ -313,7 +327,11 @@ def make_probes(cases, printed, dump, oc_text):
         scoped = "::".join(ctx["scope"] + [n])
         # ---- P: parse_file's re-printed declaration
         if n in printed:
-            scope, text = printed[n]
+            scope, text, extra = printed[n]
+            if extra:
+                p = Probe(c, "P2", None, None, None)
+                p.verdict = "spurious additional declaration of the name"
+                probes.append(p)
             if scope != ctx["scope"]:
                 p = Probe(c, "P", text, None, None)
                 p.verdict = "printed in scope %s instead of %s" % ("::".join(scope) or "::",
@@ -414,7 +432,11 @@ def run_checker(d, probes):
             exp = p.expected or c.entity_type()
             alts = []
             if p.chan != "W":
-                for names, t in L.alternatives(c.term):
+                allowed = {"volatile-dropped", "member-pointer-as-pointer",
+                           "array-suffix-unparenthesised"}
+                if L.base_of(c.term) not in BUILTIN and paren_declarator(c):
+                    allowed.add("west-const-dropped")
+                for names, t in L.alternatives(c.term, allowed):
                     if not L.role_ok(c.role, t):
                         continue
                     a = c.expected(t)
@@ -456,6 +478,7 @@ def run_checker(d, probes):
         if not bad:
             raise HarnessError("checker TU does not compile and nothing can be blamed:\n" + r.err[-2500:])
         for p, msg in bad.items():
+            msg = re.sub(r"\bChkSh_[vprt]\d+\b", "ChkSh", msg)
             p.verdict = "invalid: " + re.sub(r"\b(chk_|pr_|w)?[vprt]\d+(_\d+)?\b", "X", msg)[:100]
         live = [p for p in live if p not in bad]
     else:
@@ -926,7 +949,7 @@ def main():
              "the file stand-alone)",
         exhaustive=True,
         bound="modifier depth<=%d (global context), <=%d (other contexts); %d contexts x 4 roles"
-              % ((2, 1, len(CTX_ORDER)) if ck.tier == "quick" else (3, 2, len(CTX_ORDER))),
+              % ((2, 2, len(CTX_ORDER)) if ck.tier == "quick" else (3, 3, len(CTX_ORDER))),
         assumptions=["database element types are compared modulo reference and top-level cv "
                      "(scan_element records the value type)",
                      "corpus filter: g++ -std=c++20 -fsyntax-only -nostdinc -nostdinc++ -I parser-inc"],
